@@ -18,11 +18,12 @@ open WinTree (Id Win Req Change Tree)
 theorem SInv.reghost {gh gh' : Ghost} {st : St} (inv : SInv gh st) (tm : Obj)
     (hw : ∀ (i : Nat) (w : Win), LiveW st.tree i w → w.refcount ≤ ((getX st i).appRefs : Int) + (gh'.win i : Int) ∧
       (i = 0 → ((getX st i).appRefs : Int) + (gh'.win i : Int) ≤ w.refcount))
+    (hgl : 0 < gh'.win 0 → ∃ r, LiveW st.tree 0 r)
     (h1 : tm.freed = false → (∃ r, LiveW st.tree 0 r) → tm.refcount = (tm.appRefs : Int) + (gh'.term : Int) + 1)
     (h2 : tm.freed = false → (¬ ∃ r, LiveW st.tree 0 r) → tm.refcount = (tm.appRefs : Int) + (gh'.term : Int) ∧ 1 ≤ tm.refcount)
     (h3 : tm.freed = true → (¬ ∃ r, LiveW st.tree 0 r) ∧ tm.appRefs = 0 ∧ gh'.term = 0) : SInv gh' { st with term := tm } := by
   refine ⟨⟨inv.tinv, inv.wx_size, inv.rc, List.nodup_nil, by intro i hi; simp at hi, inv.dead_pen,
-    ⟨inv.pens.rc, inv.pens.ex, inv.pens.pos⟩, ?_, ?_, ?_, inv.simple⟩, hw⟩
+    ⟨inv.pens.rc, inv.pens.ex, inv.pens.pos⟩, ?_, ?_, ?_, inv.simple⟩, hw, hgl⟩
   · intro hf h; exact h1 hf (by rcases h with h | h; exact h; simp at h)
   · intro hf h; exact h2 hf (fun h' => h (.inl h'))
   · intro hf; exact ⟨fun h => (h3 hf).1 (by rcases h with h | h; exact h; simp at h), (h3 hf).2⟩
@@ -37,7 +38,7 @@ def termRefS (st : St) : St := { st with term := { st.term with refcount := st.t
 
 /-- The library takes a reference to a live terminal. -/
 theorem termRefS_ok {gh : Ghost} {st : St} (inv : SInv gh st) (hf : st.term.freed = false) : SInv gh.addTerm (termRefS st) := by
-  refine inv.reghost (gh' := gh.addTerm) _ inv.wref ?_ ?_ ?_
+  refine inv.reghost (gh' := gh.addTerm) _ inv.wref inv.glive ?_ ?_ ?_
   · intro _ hr
     have := inv.term_held hf (.inl hr)
     show st.term.refcount + 1 = (st.term.appRefs : Int) + ((gh.term + 1 : Nat) : Int) + 1
@@ -68,7 +69,7 @@ theorem termUnref_ghost {gh : Ghost} {st : St} (inv : SInv gh.addTerm st) :
   · unfold termUnref
     have hge : ¬ st.term.refcount < 1 := by omega
     simp only [hf, Bool.false_eq_true, if_false, hge, pure_ok]
-  · refine inv.reghost (gh' := gh) _ (fun i w hl => by have := inv.wref i w hl; simpa using this) ?_ ?_ ?_
+  · refine inv.reghost (gh' := gh) _ (fun i w hl => by have := inv.wref i w hl; simpa using this) inv.glive ?_ ?_ ?_
     · intro _ hr
       have := inv.term_held hf (.inl hr)
       simp only [Ghost.addTerm_term] at this
@@ -111,7 +112,12 @@ theorem SInv.set_refcount {gh gh' : Ghost} {st : St} (inv : SInv gh st) {win : N
       subst this
       exact ⟨_, set_get_self _ hw.lt, rfl, fun _ _ => hlo⟩
     · exact ⟨w, by rw [set_get_ne _ hi]; exact hwi, rfl, fun _ h => h⟩
-  refine ⟨⟨hB.tinv, hB.wx_size, hB.rc, hB.pend_nodup, hB.pend_freed, hB.dead_pen, hB.pens, ?_, ?_, ?_, hB.simple⟩, ?_⟩
+  refine ⟨⟨hB.tinv, hB.wx_size, hB.rc, hB.pend_nodup, hB.pend_freed, hB.dead_pen, hB.pens, ?_, ?_, ?_, hB.simple⟩, ?_, fun hg => by
+    by_cases h0 : win = 0
+    · subst h0; exact ⟨_, hl0⟩
+    · rw [hoth 0 (fun e => h0 e.symm)] at hg
+      obtain ⟨r0, hr0⟩ := inv.glive hg
+      exact ⟨r0, by show (WinTree.set st.tree win _).wins[0]? = some r0; rw [set_get_ne _ h0]; exact hr0.1, hr0.2⟩⟩
   · rw [hterm]; exact hB.term_held
   · rw [hterm]; exact hB.term_free
   · rw [hterm]; exact hB.term_dead
@@ -126,11 +132,12 @@ theorem SInv.set_refcount {gh gh' : Ghost} {st : St} (inv : SInv gh st) {win : N
 
 /-- A window nobody but the state's own tallies knows: the library's tally on a window that is not alive is void. -/
 theorem SInv.reghost_win {gh gh' : Ghost} {st : St} (inv : SInv gh st) (hterm : gh'.term = gh.term)
-    (hwin : ∀ (i : Nat) (w : Win), LiveW st.tree i w → gh'.win i = gh.win i) : SInv gh' st := by
+    (hwin : ∀ (i : Nat) (w : Win), LiveW st.tree i w → gh'.win i = gh.win i)
+    (hgl : 0 < gh'.win 0 → ∃ r, LiveW st.tree 0 r) : SInv gh' st := by
   have := inv.reghost (gh' := gh') st.term (fun i w hl => by
       have h1 := inv.wref i w hl
       rw [hwin i w hl]
-      exact h1)
+      exact h1) hgl
     (fun hf hr => by rw [hterm]; exact inv.term_held hf (.inl hr))
     (fun hf hr => by rw [hterm]; exact inv.term_free hf (by rintro (h' | h'); exact hr h'; simp at h'))
     (fun hf => by rw [hterm]; exact ⟨fun hr => (inv.term_dead hf).1 (.inl hr), (inv.term_dead hf).2⟩)
@@ -170,7 +177,11 @@ theorem unrefW_ghost {cfg : Cfg} (R : Repaired cfg) {gh gh' : Ghost} {st : St} (
   let xp : WinX := { getX st x with appRefs := (getX st x).appRefs + 1 }
   have invB : SInvB gh (setX st x xp) [] := inv.toSInvB.of_wx rfl rfl rfl rfl rfl (setX_map_pen _ rfl)
   have invP : SInv gh' (setX st x xp) := by
-    refine ⟨⟨invB.tinv, invB.wx_size, invB.rc, invB.pend_nodup, invB.pend_freed, invB.dead_pen, invB.pens, ?_, ?_, ?_, invB.simple⟩, ?_⟩
+    refine ⟨⟨invB.tinv, invB.wx_size, invB.rc, invB.pend_nodup, invB.pend_freed, invB.dead_pen, invB.pens, ?_, ?_, ?_, invB.simple⟩, ?_, fun hg => by
+      by_cases h0 : x = 0
+      · subst h0; exact ⟨ww, hl⟩
+      · rw [hoth 0 (fun e => h0 e.symm)] at hg
+        exact inv.glive hg⟩
     · rw [hterm]; exact invB.term_held
     · rw [hterm]; exact invB.term_free
     · rw [hterm]; exact invB.term_dead
@@ -376,7 +387,7 @@ theorem tAct_tref (cfg : Cfg) (top : Top) : tAct cfg top .tref =
 
 /-- A change of the log only. -/
 theorem SInv.of_log {gh : Ghost} {st : St} (inv : SInv gh st) (l : List String) : SInv gh { st with log := l } :=
-  ⟨inv.toSInvB.of_wx rfl rfl rfl rfl rfl rfl, inv.wref⟩
+  ⟨inv.toSInvB.of_wx rfl rfl rfl rfl rfl rfl, inv.wref, inv.glive⟩
 
 /-- One action of a handler bound on the terminal, or of a watch: any API call on a window (`tickit_window_unref`
     included), `tickit_term_ref`, `tickit_term_unref`. -/
@@ -1266,7 +1277,7 @@ theorem instDestroy_ok {tc : TCfg} (R : Repaired tc.base) (hrf : tc.rootForgetsT
     rw [sync_st] at E1
     exact E1
   · rw [if_neg hr]
-    refine destroyTail_ok ⟨F.inv.reghost_win rfl ?_, F.keep, F.ids, F.root⟩ (Rest.refl top) hsw hi ha hd
+    refine destroyTail_ok ⟨F.inv.reghost_win rfl ?_ (fun h => by cases h), F.keep, F.ids, F.root⟩ (Rest.refl top) hsw hi ha hd
     intro j w hl
     have : j ≠ 0 := by
       intro e; subst e
@@ -1608,9 +1619,10 @@ theorem xrun_from_start {tc : TCfg} (R : TRepaired tc) (start : XOp) (hstart : s
 theorem TopInv.facts {top : Top} (T : TopInv top) :
     -- the terminal's binding list holds the root window's handlers only while the root window lives
     (∀ b ∈ top.tbinds, b.isApp = false → rootAlive top.st = true) ∧
-    -- while the toplevel instance lives, so does the terminal it refers to, and the instance's count is the application's
+    -- while the toplevel instance lives, so do the terminal and the root window it refers to, and the instance's count is
+    -- the application's
     (∀ i, top.inst = some i → i.freed = false → top.st.term.freed = false ∧ 1 ≤ top.st.term.refcount ∧
-      1 ≤ i.refcount ∧ i.refcount = (i.appRefs : Int)) ∧
+      rootAlive top.st = true ∧ 1 ≤ i.refcount ∧ i.refcount = (i.appRefs : Int)) ∧
     -- a destroyed instance has no watch left and nobody holds a reference to it
     (∀ i, top.inst = some i → i.freed = true → i.laters = [] ∧ i.timers = [] ∧ i.appRefs = 0) ∧
     -- a terminal the application still refers to has not been freed
@@ -1619,7 +1631,8 @@ theorem TopInv.facts {top : Top} (T : TopInv top) :
   intro i hi hf
   have hg : top.ghost = instGhost := ghost_alive hi hf
   have hlive : top.st.term.freed = false := term_live_of_ghost T.f.inv (by rw [hg]; decide)
-  refine ⟨hlive, ?_, T.inst.live i hi hf⟩
+  have hroot : rootAlive top.st = true := rootAlive_iff.2 (T.f.inv.glive (by rw [hg]; decide))
+  refine ⟨hlive, ?_, hroot, T.inst.live i hi hf⟩
   by_cases hr : ∃ r, LiveW top.st.tree 0 r
   · have := T.f.inv.term_held hlive (.inl hr); omega
   · exact (T.f.inv.term_free hlive (by rintro (h' | h'); exact hr h'; simp at h')).2
